@@ -177,3 +177,26 @@ def type_of_dims(d):
 
 
 assert len(UNITS) == 110, len(UNITS)
+
+# the predefined catalogue in a fixed numbering (C17: worker and model must agree)
+CAT_TYPES = ["Mass", "Length", "Duration", "DataVolume", "Temperature", "Area", "Volume", "Velocity", "Acceleration",
+             "Force", "Energy", "Power", "Frequency", "DataThroughput"]
+# definition of the derived types in terms of other types, in the order derive_unit_from expects
+CAT_DEFN = {"Area": [("Length", 2)], "Volume": [("Length", 3)], "Velocity": [("Length", 1), ("Duration", -1)],
+            "Acceleration": [("Length", 1), ("Duration", -2)], "Force": [("Mass", 1), ("Acceleration", 1)],
+            "Energy": [("Force", 1), ("Length", 1)], "Power": [("Energy", 1), ("Duration", -1)],
+            "Frequency": [("Duration", -1)], "DataThroughput": [("DataVolume", 1), ("Duration", -1)]}
+
+
+def catalogue_units():
+    """[(symbol, type name)]: reference units of the linear types in type order, the temperature units, the rest."""
+    out = []
+    for t in CAT_TYPES:
+        if t != "Temperature":
+            out.append((REF_SYMBOL[t], t))
+    for s in TEMP_UNITS:
+        out.append((s, "Temperature"))
+    for s, (t, _) in UNITS.items():
+        if s != REF_SYMBOL[t]:
+            out.append((s, t))
+    return out
